@@ -46,6 +46,9 @@ def sem_fixed():
         Variant("FxN", "newtype", [Field(None, user(s1), inline=True)])]))
     add(Item("FxIntInline", "FxIntInline", "enum", tag="fxi", variants=[
         Variant("FxM", "newtype", [Field(None, user(s1), inline=True)]), Variant("FxO", "unit")]))
+    # rename_all_fields with a struct variant that has no fields (serde accepts it)
+    add(Item("FxRenameAllFieldsEmpty", "FxRenameAllFieldsEmpty", "enum", rename_all_fields="camelCase", variants=[
+        Variant("FxEmptyV", "struct", []), Variant("FxFullV", "struct", [Field("fx_x_y", prim("i32"))])]))
     # the only field flattens a struct that consists of two flattened enums: `(A | B) & (C | D)` must keep its parentheses
     ea = add(Item("FxEnumA", "FxEnumA", "enum", variants=[
         Variant("FxA1", "struct", [Field("fx_a1", prim("i32"))]), Variant("FxA2", "struct", [Field("fx_a2", prim("bool"))])]))
